@@ -374,6 +374,30 @@ def run_real(spec):
                 res.violation("failed-makegateway-left-process:overlapping", f"{specs}: {len(oks)} gateways were handed out but {len(extra)} new child processes are alive: {outs!r}")
                 for pid_ in extra:
                     pass
+        # ... and a refused call leaves the reservation of the call still in flight alone: a third call is refused as well
+        children_before = worker_pids()
+        first: list = []
+        ta = threading.Thread(target=lambda: first.append(g.makegateway("popen//id=trio")))
+        ta.start()
+        time.sleep(0.003)
+        later = []
+        for _ in range(2):
+            try:
+                later.append(("ok", g.makegateway("popen//id=trio")))
+            except ValueError:
+                later.append(("ValueError", None))
+            except BaseException as e:  # noqa
+                later.append((type(e).__name__, str(e)[:80]))
+        ta.join(60)
+        res.count("overlapping_makegateway_pairs")
+        n_ok = len(first) + sum(1 for o in later if o[0] == "ok")
+        if n_ok != 1 or any(o[0] not in ("ok", "ValueError") for o in later):
+            res.violation("live-gateways-share-id" if n_ok > 1 else "overlapping-makegateway-wrong-exception:" + str([o[0] for o in later]),
+                          f"three calls for id 'trio' (one in flight, two after it): first -> {len(first)} gateway, later -> {[o[0] for o in later]}")
+        time.sleep(0.3)
+        if len(worker_pids() - children_before) != n_ok:
+            res.violation("failed-makegateway-left-process:overlapping", f"three calls for id 'trio': {n_ok} gateways, {len(worker_pids() - children_before)} new child processes")
+        consistent("after three overlapping calls for one id")
         # explicit id colliding with a live one must be refused and change nothing
         live = rng.choice(list(g)).id
         before = [gw.id for gw in g]
